@@ -407,7 +407,9 @@ def run(ctx):
             def fails(o):
                 jj = pipeline.Job("min", sc.cfg(None, o), j.inp, j.lang, {"opts": o, "text": j.meta["text"]})
                 pipeline.run_jobs(exe, [jj], hooks=False, timeout=5)
-                return judge(jj)[0] in ("exit", "compile-error", "object-differs")
+                v2, m2 = judge(jj)
+                # the same kind of failure as the run being minimised (a hang must stay a hang)
+                return v2 == v and (v != "exit" or ("timeout" in (m2 or "")) == ("timeout" in msg))
             keys = list(opts)
             n = 2
             while len(keys) >= 2:            # delta debugging over the option set
